@@ -211,7 +211,7 @@ def _c(i):
 
 
 # ------------------------------------------------------------------ headers / order / order independence
-def _pipeline(order_i, pos_i, swap, method_i):
+def _pipeline(order_i, pos_i, swap, method_i, seed=7, init_calls=0):
     """two concrete targets in either input order; Bio FASTA reading / writing stubbed"""
     targets = [('TAGK', 'hdr1|x'), ('SAAR', 'hdr2|y')]
     if swap:
@@ -220,7 +220,7 @@ def _pipeline(order_i, pos_i, swap, method_i):
     order = ['juxtaposed', 'target_first', 'decoy_first'][order_i]
     position = ['prefix', 'suffix'][pos_i]
     method = ['reverse', 'shuffle'][method_i]
-    d = _mk(method=method, order=order, position=position, decoy_string='DECOY_', seed=7, nterm=False,
+    d = _mk(method=method, order=order, position=position, decoy_string='DECOY_', seed=seed, nterm=False,
             cterm=True)
     written = []
 
@@ -238,7 +238,7 @@ def _pipeline(order_i, pos_i, swap, method_i):
         def __exit__(self, *a):
             return False
 
-    state = {'calls': 0}
+    state = {'calls': init_calls}
 
     def fake_sample(population, k):
         # a stateful stand-in for the seeded generator: the k-th call rotates by k+1
@@ -312,3 +312,19 @@ def c20_pipeline(order_i: int, pos_i: int, method_i: int) -> int:
     post: _ >= 0
     """
     return _check_pipeline(order_i, pos_i, method_i)
+
+
+@cond('C20', bounds='shuffle of two targets; requested seed = ANY integer (0 and negatives included); state of the global '
+      'generator before the run symbolic (two runs from different states)', encodes=['moPepGen.cli.decoy_fasta.DecoyFasta.main'],
+      stubs=['SeqIO.parse, FastaIO.FastaWriter, open, get_logger', 'random -> stateful deterministic stand-in (seed resets '
+             'the state; without seeding the output depends on the prior state)'],
+      codes={-1: 'with a seed given, two runs from different generator states give different decoys'}, timeout=300)
+def c20_seed_reproducible(seed: int, s1: int, s2: int, order_i: int) -> int:
+    """
+    pre: 0 <= s1 <= 3 and 0 <= s2 <= 3
+    pre: 0 <= order_i <= 2
+    post: _ >= 0
+    """
+    a = _pipeline(order_i, 0, False, 1, seed=seed, init_calls=s1)
+    b = _pipeline(order_i, 0, False, 1, seed=seed, init_calls=s2)
+    return OK if a == b else -1
